@@ -77,6 +77,35 @@ def mpsQueries (half : α) (g : List α) (nsteps : Nat) (reorder : Bool) : List 
    | _ :: t1 :: _ => [half * (0 + t1)]
    | _ => []) ++ ((g.drop 1).take nsteps).map (fun t => half * (t + t))
 
+/-! ### Badly prepared ("dark") atoms, applied by the back-ends on top of the callable -/
+
+/-- emu-sv `init_dark_qubits` (installed whenever `state_prep_error > 0`, even if no atom is bad):
+`mat = original(t).clone(); mat[bad, :] = 0; mat[:, bad] = 0` — evaluated at **every** call. -/
+def darkSv (bad : Nat → Bool) (m : Mat α) : Mat α :=
+  fun i j => if bad i || bad j then 0 else m i j
+
+/-- emu-mps `_get_interaction_matrix`: `matrix[filter, :][:, filter]` — the sub-matrix of the well
+prepared atoms, `keep` = their indices in increasing order (no qubit reordering). -/
+def darkMps (keep : List Nat) (m : Mat α) : Mat α :=
+  fun i j => m (keep.getD i 0) (keep.getD j 0)
+
+/-- The matrix emu-sv hands to the stepper in step `k` (`dark = none`: `state_prep_error = 0`, no
+wrapper). -/
+def svStepMat (full masked : Mat α) (slmEnd : α) (dark : Option (Nat → Bool)) (g : List α) (k : Nat) :
+    Option (Mat α) :=
+  (svQuery g k).map (fun t =>
+    match dark with
+    | some bad => darkSv bad (callable full masked slmEnd t)
+    | none => callable full masked slmEnd t)
+
+/-- The matrix emu-mps builds its Hamiltonian from in step `k`. -/
+def mpsStepMat (half : α) (full masked : Mat α) (slmEnd : α) (dark : Option (List Nat)) (g : List α)
+    (k : Nat) : Option (Mat α) :=
+  (mpsQuery half g k).map (fun t =>
+    match dark with
+    | some keep => darkMps keep (callable full masked slmEnd t)
+    | none => callable full masked slmEnd t)
+
 /-- Is the masked matrix used in step `k`? -/
 def stepMasked (q : Option α) (slmEnd : α) : Option Bool := q.map (fun t => decide (t < slmEnd))
 
